@@ -7,7 +7,7 @@ from harness import common, tlc, runner
 ALPHABET = ["EQ", "EB", "HH", "SD", "XS", "GE", "UE", "NA", "@", "#", "<", ">", "7", "_", "%", "a"]
 EXPAND = {"EQ": '\\"', "EB": "\\\\", "HH": "^^", "SD": " .", "XS": "xsd:", "GE": "geo:", "UE": "\\u00E9", "NA": "é"}
 IRIS = {"i1": "http://a.b/c#d", "i2": "urn:x:y_z@w", "i3": "http://a.b/p_q", "dt": "http://u.v/dt#t"}
-BNODES = {"b1": "_:b1", "b2": "_:x_2"}
+BNODES = {"b1": "_:b1", "b2": "_:x_2", "b3": "_:n.1.z"}
 SUFFIX = {"none": "", "lang": "@en", "langreg": "@en-GB", "langnum": "@es-419", "dt": "^^<%s>" % IRIS["dt"]}
 SEPS = {"sp": " ", "tab": "\t", "sp2": "  "}
 
@@ -35,10 +35,10 @@ def lit(content, suffix):
 
 
 def nt_statements(max_len, layouts="all", rnd=None, sample=None):
-    subjects = [node("iri", "i1"), node("iri", "i2"), node("bnode", "b1")] if layouts == "all" else [node("iri", "i1")]
+    subjects = [node("iri", "i1"), node("iri", "i2"), node("bnode", "b1"), node("bnode", "b3")] if layouts == "all" else [node("iri", "i1")]
     seps = ["sp", "tab", "sp2"] if layouts == "all" else ["sp"]
     comments = [False, True] if layouts == "all" else [False]
-    objs = [node("iri", "i2"), node("bnode", "b2")]
+    objs = [node("iri", "i2"), node("bnode", "b2"), node("bnode", "b3")]
     for n in range(max_len + 1):
         for content in itertools.product(ALPHABET, repeat=n):
             for sf in SUFFIX:
@@ -62,7 +62,7 @@ def random_nt_statements(rnd, n, max_len=12):
     for i in range(n):
         content = [rnd.choice(ALPHABET) for _ in range(rnd.randint(3, max_len))]
         o = lit(content, rnd.choice(list(SUFFIX)))
-        out.append({"id": "ntr%d" % i, "x": {"s": rnd.choice([node("iri", "i1"), node("iri", "i2"), node("bnode", "b1")]), "p": "i3",
+        out.append({"id": "ntr%d" % i, "x": {"s": rnd.choice([node("iri", "i1"), node("iri", "i2"), node("bnode", "b1"), node("bnode", "b3")]), "p": "i3",
                                              "o": o, "sep": rnd.choice(list(SEPS)), "glued": rnd.random() < .5,
                                              "comment": rnd.random() < .3}})
     return out
@@ -162,10 +162,11 @@ TOK_TEXT = {"s.pn": "ex:a", "s.abs": "<http://x.org/s>", "s.rel": "<r1>", "s.bn"
             "p.pn": "ex:p", "p.a": "a", "p.abs": "<http://x.org/q>", "p.type": "rdf:type",
             "o.pn": "ex:b", "o.abs": "<http://x.org/o#f>", "o.rel": "<r2>", "o.bn": "_:b2", "o.int": "57",
             "o.str": '"x y"', "o.xsd": '"5"^^xsd:int', "o.dti": '"v"^^<http://x.org/dt>', "o.dtp": '"v"^^ex:dt',
-            "o.lang": '"hola"@es', "o.spec": '"a # b ; c , d . e"', "o.esc": '"q\\"u\\\\"', "o.cls": "ex:C"}
-SUBJ_TOKS = ["s.pn", "s.abs", "s.rel", "s.bn"]
+            "o.lang": '"hola"@es', "o.spec": '"a # b ; c , d . e"', "o.esc": '"q\\"u\\\\"', "o.cls": "ex:C",
+            "o.https": "<https://s.org/x>", "s.https": "<https://s.org/y#z>"}
+SUBJ_TOKS = ["s.pn", "s.abs", "s.rel", "s.bn", "s.https"]
 PRED_TOKS = ["p.pn", "p.a", "p.abs", "p.type"]
-OBJ_TOKS = ["o.pn", "o.abs", "o.rel", "o.bn", "o.int", "o.str", "o.xsd", "o.dti", "o.dtp", "o.lang", "o.spec", "o.esc", "o.cls"]
+OBJ_TOKS = ["o.pn", "o.abs", "o.rel", "o.bn", "o.int", "o.str", "o.xsd", "o.dti", "o.dtp", "o.lang", "o.spec", "o.esc", "o.cls", "o.https"]
 GAPS = ["sp", "sp2", "tab", "nl", "nlsp", "cmt", "cline"]
 HEADER = ["@prefix ex: <http://ex.org/> .", "@prefix xsd: <http://www.w3.org/2001/XMLSchema#> .",
           "@prefix rdf: <http://www.w3.org/1999/02/22-rdf-syntax-ns#> .", "@base <http://b.org/d/> ."]
@@ -229,7 +230,7 @@ def random_ttl_doc(rnd, max_triples=8, gaps=GAPS, obj_toks=None):
 
 def skeleton(of, sf):
     p2 = {"s.pn": "p.a", "s.abs": "p.abs", "s.rel": "p.type"}.get(sf, "p.pn")
-    s2 = {"s.pn": "s.bn", "s.abs": "s.rel", "s.rel": "s.pn"}.get(sf, "s.abs")
+    s2 = {"s.pn": "s.bn", "s.abs": "s.rel", "s.rel": "s.pn", "s.https": "s.https"}.get(sf, "s.abs")
     return [sf, "p.pn", of, ";", p2, "o.cls" if p2 in ("p.a", "p.type") else of, ",", "o.pn", ".", s2, "p.abs", of, "."]
 
 
@@ -295,7 +296,8 @@ def check_c07(out, tier):
     docs = []
     i = 0
     forms = [("o.pn", "s.pn"), ("o.str", "s.rel"), ("o.dtp", "s.abs"), ("o.lang", "s.bn"), ("o.spec", "s.pn"), ("o.int", "s.rel"),
-             ("o.esc", "s.abs"), ("o.xsd", "s.pn"), ("o.dti", "s.bn"), ("o.bn", "s.rel"), ("o.abs", "s.pn"), ("o.rel", "s.abs")]
+             ("o.esc", "s.abs"), ("o.xsd", "s.pn"), ("o.dti", "s.bn"), ("o.bn", "s.rel"), ("o.abs", "s.pn"), ("o.rel", "s.abs"),
+             ("o.https", "s.https")]
     per = 160 if tier == "quick" else 4096
     for of, sf in forms:
         toks = skeleton(of, sf)
